@@ -2407,3 +2407,233 @@ func behindNotMinusOne(fn *ssa.Function, v ssa.Value, u ssa.Instruction) bool {
 	}
 	return false
 }
+
+// ---- round 8, C03: node capacity, typed message rewrite, link type flag ----
+
+// symbolNodeCapacityRule: a symbol table node is written with a fixed number of slots (the maxEntries argument of
+// SymbolTableNode.WriteAt); every capacity a node is created or parsed with is at most that number - otherwise the insert that
+// the capacity test admits is counted in NumSymbols but has no slot in the written node.
+func symbolNodeCapacityRule(c *Ctx, r *Result, rule string) {
+	var slots []int64
+	type capSite struct {
+		k    int64
+		pos  string
+		name string
+	}
+	var caps []capSite
+	undec := ""
+	for _, fn := range c.LibFuncs() {
+		for _, site := range callsIn(fn) {
+			switch c.calleeName(site) {
+			case "structures.SymbolTableNode.WriteAt":
+				args := site.Common().Args
+				if len(args) >= 5 {
+					if k, ok := constInt(stripConv(args[4])); ok {
+						slots = append(slots, k)
+					} else {
+						undec = "slot count at " + c.InstrPos(site.(ssa.Instruction)) + " is not a constant"
+					}
+				}
+			case "structures.NewSymbolTableNode":
+				args := site.Common().Args
+				if k, ok := constInt(stripConv(args[0])); ok {
+					caps = append(caps, capSite{k, c.InstrPos(site.(ssa.Instruction)), c.Name(fn) + "#NewSymbolTableNode"})
+				} else if c.Name(fn) != "structures.NewSymbolTableNode" {
+					undec = "capacity at " + c.InstrPos(site.(ssa.Instruction)) + " is not a constant"
+				}
+			}
+		}
+	}
+	if parse := c.FnOpt("structures.ParseSymbolTableNode"); parse != nil {
+		instrs(parse, func(in ssa.Instruction) {
+			ms, ok := in.(*ssa.MakeSlice)
+			if !ok || !strings.Contains(ms.Type().String(), "SymbolTableEntry") {
+				return
+			}
+			var walk func(v ssa.Value, d int)
+			walk = func(v ssa.Value, d int) {
+				v = stripConv(v)
+				if k, isK := constInt(v); isK {
+					if k > 0 {
+						caps = append(caps, capSite{k, c.InstrPos(ms), "structures.ParseSymbolTableNode#default-capacity"})
+					}
+					return
+				}
+				if phi, isPhi := v.(*ssa.Phi); isPhi && d < 3 {
+					for _, e := range phi.Edges {
+						walk(e, d+1)
+					}
+				}
+			}
+			walk(ms.Cap, 0)
+		})
+	}
+	if len(slots) == 0 || len(caps) < 2 || undec != "" {
+		r.Undec(rule, "structures.SymbolTableNode#capacity-within-written-slots", "", firstNonEmpty(undec, fmt.Sprintf("%d constant slot counts, %d constant capacities", len(slots), len(caps))))
+		return
+	}
+	minSlots := slots[0]
+	for _, s := range slots {
+		if s < minSlots {
+			minSlots = s
+		}
+	}
+	for _, cs := range caps {
+		r.Check(cs.k <= minSlots, rule, cs.name, cs.pos, fmt.Sprintf("capacity %d, nodes are written with %d slots", cs.k, minSlots))
+	}
+}
+
+// typedMessageWriteRule: where a function compares the Type of a header message with a constant and writes into the Data of
+// that same message, the write stands behind the equality (the true edge of ==, the false edge of !=).
+func typedMessageWriteRule(c *Ctx, r *Result, rule string, floor int) {
+	n := 0
+	for _, fn := range c.LibFuncs() {
+		if fn.Blocks == nil {
+			continue
+		}
+		// type tests per message value
+		type edge struct{ from, to *ssa.BasicBlock }
+		tests := map[ssa.Value][]edge{}
+		for _, b := range fn.Blocks {
+			ifi, ok := b.Instrs[len(b.Instrs)-1].(*ssa.If)
+			if !ok {
+				continue
+			}
+			cmp, ok := ifi.Cond.(*ssa.BinOp)
+			if !ok || (cmp.Op != token.EQL && cmp.Op != token.NEQ) {
+				continue
+			}
+			if _, isK := constInt(cmp.Y); !isK {
+				continue
+			}
+			ld, ok := isLoad(stripConv(cmp.X))
+			if !ok {
+				continue
+			}
+			f, base := fieldOfAddr(ld.X)
+			if f == nil || fieldKey(base.Type(), f) != "core.HeaderMessage.Type" {
+				continue
+			}
+			e := edge{b, b.Succs[0]}
+			if cmp.Op == token.NEQ {
+				e = edge{b, b.Succs[1]}
+			}
+			tests[base] = append(tests[base], e)
+		}
+		if len(tests) == 0 {
+			continue
+		}
+		k := 0
+		instrs(fn, func(in ssa.Instruction) {
+			// a write whose destination is (a slice of / an element of) msg.Data
+			var dst ssa.Value
+			switch x := in.(type) {
+			case *ssa.Call:
+				name := ""
+				if x.Call.IsInvoke() {
+					name = x.Call.Method.Name()
+				} else if f := x.Call.StaticCallee(); f != nil {
+					name = f.Name()
+				} else if b, isB := x.Call.Value.(*ssa.Builtin); isB {
+					name = b.Name()
+				}
+				if (strings.HasPrefix(name, "PutUint") || name == "copy") && len(x.Call.Args) >= 2 {
+					dst = x.Call.Args[len(x.Call.Args)-2]
+				}
+			case *ssa.Store:
+				if ia, ok := x.Addr.(*ssa.IndexAddr); ok {
+					dst = ia.X
+				}
+			}
+			if dst == nil {
+				return
+			}
+			for i := 0; i < 4; i++ {
+				if sl, ok := dst.(*ssa.Slice); ok {
+					dst = sl.X
+				}
+			}
+			ld, ok := isLoad(dst)
+			if !ok {
+				return
+			}
+			f, base := fieldOfAddr(ld.X)
+			if f == nil || fieldKey(base.Type(), f) != "core.HeaderMessage.Data" || len(tests[base]) == 0 {
+				return
+			}
+			n++
+			k++
+			behind := false
+			for _, e := range tests[base] {
+				if edgeDominates(e.from, e.to, in.Block()) {
+					behind = true
+				}
+			}
+			r.Check(behind, rule, fmt.Sprintf("%s#message-rewritten-behind-its-type-test-%d", c.Name(fn), k), c.InstrPos(in), "the bytes of a header message are overwritten only where the comparison of its Type with a constant holds")
+		})
+	}
+	if n < floor {
+		r.Shortfall(c, rule, fmt.Sprintf("%s: only %d writes into a type-tested header message found (expected >= %d)", rule, n, floor))
+	}
+}
+
+// linkTypeFlagRule: a link message whose Type is a constant other than hard (0) is built with the 'link type field present' flag.
+func linkTypeFlagRule(c *Ctx, r *Result, rule string, floor int) {
+	n := 0
+	for _, fn := range c.LibFuncs() {
+		typ := map[ssa.Value]int64{}
+		flags := map[ssa.Value]*ssa.Store{}
+		instrs(fn, func(in ssa.Instruction) {
+			st, ok := in.(*ssa.Store)
+			if !ok {
+				return
+			}
+			fa, ok := st.Addr.(*ssa.FieldAddr)
+			if !ok {
+				return
+			}
+			f, base := fieldOfAddr(fa)
+			if f == nil {
+				return
+			}
+			switch fieldKey(base.Type(), f) {
+			case "core.LinkMessage.Type":
+				if k, isK := constInt(stripConv(st.Val)); isK {
+					typ[base] = k
+				}
+			case "core.LinkMessage.Flags":
+				flags[base] = st
+			}
+		})
+		for base, k := range typ {
+			if k == 0 {
+				continue
+			}
+			n++
+			st := flags[base]
+			ok := false
+			pos := c.Pos(fn.Pos())
+			if st != nil {
+				pos = c.InstrPos(st)
+				if fl, isK := constInt(stripConv(st.Val)); isK {
+					ok = fl&0x08 != 0
+				} else {
+					ok = true // computed flags: not decided here
+				}
+			}
+			r.Check(ok, rule, fmt.Sprintf("%s#link-of-type-%d-carries-the-type-flag", c.Name(fn), k), pos, "a link message of a type other than hard sets flag bit 3 (link type field present): without it the type byte is not written and the link reads back as a hard link")
+		}
+	}
+	if n < floor {
+		r.Shortfall(c, rule, fmt.Sprintf("%s: only %d link messages of a constant non-hard type found (expected >= %d)", rule, n, floor))
+	}
+}
+
+func init() {
+	registry["C03"].Meta.Rules["C03.20"] = "a group node holds no more entries than it is written with: every constant capacity a symbol table node is created with (NewSymbolTableNode) or parsed with (the default in ParseSymbolTableNode) is at most the constant number of slots SymbolTableNode.WriteAt is called with (capacity 33 against 32 slots admits a 33rd child whose entry is counted but not written: the whole file no longer opens)"
+	registry["C03"].Rules = append(registry["C03"].Rules, func(c *Ctx, r *Result) { symbolNodeCapacityRule(c, r, "C03.20") })
+	registry["C03"].Meta.Rules["C03.21"] = "only the reference count message is rewritten: where a function compares the Type of a header message with a constant and writes into the Data of that message, the write is dominated by the edge on which the comparison holds (`Type == RefCount || len(Data) >= 4` stamps the count over the first four bytes of every message of the link target when a rejected hard link is rolled back)"
+	registry["C03"].Rules = append(registry["C03"].Rules, func(c *Ctx, r *Result) { typedMessageWriteRule(c, r, "C03.21", 2) })
+	registry["C03"].Meta.Rules["C03.22"] = "a soft or external link is written as one: a LinkMessage built with a constant Type other than hard has constant Flags with bit 3 (link type field present) set (`TypeFieldBit & CharSetBit` is 0: the type byte is not written and every soft link reads back as a hard link to a nonsense address)"
+	registry["C03"].Rules = append(registry["C03"].Rules, func(c *Ctx, r *Result) { linkTypeFlagRule(c, r, "C03.22", 2) })
+}
